@@ -81,6 +81,14 @@ class BuiltinV(V):
         return f'BuiltinV({self.name})'
 
 
+class PropV(V):
+    """a `property` object of a repository class, as seen through the class (getattr(cls, name))"""
+
+    def __init__(self, getter, setter):
+        self.getter = getter
+        self.setter = setter
+
+
 class TupleV(V):
     def __init__(self, items):
         self.items = list(items)
@@ -205,6 +213,14 @@ class St:
     def assume(self, c):
         if z3.is_true(c):
             return
+        if z3.is_and(c):
+            for x in c.children():
+                self.assume(x)
+            return
+        i = c.get_id()
+        for x in self.pc[-60:]:
+            if x.get_id() == i:
+                return
         self.pc.append(c)
 
     @staticmethod
